@@ -138,6 +138,15 @@ example : substSomeHypB exTbufHost 2 exTbuf = true ∧ substSomeHypB exAntHost 2
     addFreshB { exHost with names := #["a", "b", "u", "z", "ff", "u~T", "a"] } 2 exImpl = false ∧
     arityOKB exHost 2 exAnt = false := by decide +kernel
 
+/-- hypotheses of `remove_dangling_isSome`: an inverter without reader behind a fork; it is removed with its input line, the fork is
+    squeezed (`Line.remove()` on a fork) -/
+example : let nn : NNet := { net := { nodes := #[⟨"input", [], [some 0]⟩, ⟨"__fork__", [some 0], [some 1, some 2]⟩, ⟨"INV1", [some 1], []⟩,
+                                                   ⟨"output", [some 2], []⟩],
+                                      lines := #[⟨0, 0, 1, 0⟩, ⟨1, 0, 2, 0⟩, ⟨1, 1, 3, 0⟩], io := [0, 3] }, names := #["a", "a", "g", "z"] }
+    nn.wfNoTrail = true ∧ forksDenseB nn.net = true ∧
+    (removeDangling 5 nn [2] [some 2]).map (fun r => (r.net.nodes.size, r.net.lines.size, (r.net.node 1).outs)) = some (3, 2, [some 1]) := by
+  decide +kernel
+
 /-- the first GSC180 implementations of the generated table are the hypotheses' objects: a library cell from the table, instantiated in
     `exFeedHost` (cell 1, one input, one output) -/
 example : Gen.techImplChunk0.head?.map (fun e => e.2.1) = some "BUFX1" ∧
